@@ -19,7 +19,11 @@ use std::fmt::Write;
 
 use cosmwasm_std::{Decimal, Order, Uint128};
 use cosmwasm_storage::ReadonlyBucket;
-use cw20::{AllowanceResponse, BalanceResponse, Expiration, MinterResponse, TokenInfoResponse};
+use cw20::{
+    AllAccountsResponse, AllAllowancesResponse, AllSpenderAllowancesResponse, AllowanceResponse,
+    BalanceResponse, DownloadLogoResponse, Expiration, LogoInfo, MarketingInfoResponse,
+    MinterResponse, TokenInfoResponse,
+};
 
 use crate::chain::*;
 
@@ -30,6 +34,20 @@ fn opt_addr(c: &Option<cosmwasm_std::CanonicalAddr>) -> String {
     match c {
         Some(a) => humanize(a),
         None => "-".to_string(),
+    }
+}
+fn opt_str(c: &Option<String>) -> String {
+    match c {
+        Some(a) => word(a),
+        None => "-".to_string(),
+    }
+}
+/// a free-text value as one token: blanks become `_`, the empty string `""`
+fn word(s: &str) -> String {
+    if s.is_empty() {
+        "\"\"".to_string()
+    } else {
+        s.replace(' ', "_")
     }
 }
 fn exp_str(e: &Expiration) -> String {
@@ -96,6 +114,25 @@ const K_DP_NEWOWNER: u32 = 20;
 const K_RG_CFG: u32 = 21;
 const K_RG_NEWOWNER: u32 = 22;
 const K_RG_VALS: u32 = 23;
+// observations obtained through the query entry points that the lines above read from storage,
+// and the paged listings (PROTOCOL.md section 5, DESIGN.md 11.10)
+const K_HUB_QCFG: u32 = 24;
+const K_HUB_QNEWOWNER: u32 = 25;
+const K_HUB_QPARAMS: u32 = 26;
+const K_TOK_META: u32 = 28;
+const K_TOK_ACCOUNTS: u32 = 29;
+const K_TOK_ALLALLOW: u32 = 30;
+const K_TOK_SPALLOW: u32 = 31;
+const K_TOK_MARKETING: u32 = 32;
+const K_RW_QCFG: u32 = 33;
+const K_RW_QNEWOWNER: u32 = 34;
+const K_RW_QSTATE: u32 = 35;
+const K_RW_QHOLDERS: u32 = 36;
+const K_DP_QCFG: u32 = 37;
+const K_DP_QNEWOWNER: u32 = 38;
+const K_RG_QCFG: u32 = 39;
+const K_RG_QNEWOWNER: u32 = 40;
+const K_HUB_QHIST: u32 = 41;
 
 fn key(kind: u32, tok: usize, a: usize, b: usize) -> u32 {
     (kind << 24) | ((tok as u32) << 16) | ((a as u32) << 8) | b as u32
@@ -161,6 +198,67 @@ fn frag(w: &World, key: u32, out: &mut Vec<String>, f: impl FnOnce(&mut Vec<Stri
 }
 
 // ---------------------------------------------------------------------------------------------
+// Paged listings (PROTOCOL.md section 5, "Paging")
+// ---------------------------------------------------------------------------------------------
+
+/// page K (0-based) of every address-cursor listing asks for 2 entries if K is even, 3 if odd
+pub fn page_limit(k: usize) -> u32 {
+    if k % 2 == 0 {
+        2
+    } else {
+        3
+    }
+}
+/// no listing of 21 names needs more than 10 pages; a contract whose cursor does not advance is
+/// cut off here (`<key> overflow`)
+const PAGE_CAP: usize = 24;
+
+/// `hub.qhist`: number of small pages of the hub's AllHistory that are fetched
+const HIST_PAGES: usize = 4;
+
+enum PageEnd {
+    Done,
+    /// the query of page K failed (Err or panic)
+    Failed(usize),
+    Overflow,
+}
+
+/// Page through a listing the way a client does: first page without cursor, every further page
+/// with `start_after` = the cursor of the last entry of the previous page, until a page comes back
+/// with fewer entries than were asked for.  Returns the entries with their page numbers.
+fn paged<T>(
+    mut fetch: impl FnMut(Option<String>, u32) -> Result<Vec<T>, String>,
+    cursor: impl Fn(&T) -> String,
+) -> (Vec<(usize, T)>, PageEnd) {
+    let mut all: Vec<(usize, T)> = Vec::new();
+    let mut start: Option<String> = None;
+    for k in 0..PAGE_CAP {
+        let lim = page_limit(k);
+        let items = match fetch(start.clone(), lim) {
+            Ok(v) => v,
+            Err(_) => return (all, PageEnd::Failed(k)),
+        };
+        let n = items.len();
+        if let Some(last) = items.last() {
+            start = Some(cursor(last));
+        }
+        all.extend(items.into_iter().map(|it| (k, it)));
+        if (n as u32) < lim {
+            return (all, PageEnd::Done);
+        }
+    }
+    (all, PageEnd::Overflow)
+}
+
+fn page_end(prefix: &str, end: PageEnd, out: &mut Vec<String>) {
+    match end {
+        PageEnd::Done => {}
+        PageEnd::Failed(k) => out.push(format!("{} err {}", prefix, k)),
+        PageEnd::Overflow => out.push(format!("{} overflow", prefix)),
+    }
+}
+
+// ---------------------------------------------------------------------------------------------
 // The dump
 // ---------------------------------------------------------------------------------------------
 
@@ -201,11 +299,33 @@ fn dump_hub(w: &World, out: &mut Vec<String>) {
             Err(_) => out.push("hub.cfg err".to_string()),
         }
     });
+    frag(w, key(K_HUB_QCFG, 0, 0, 0), out, |out| {
+        match query_contract::<_, ConfigResponse>(w, HUB, &QueryMsg::Config {}) {
+            Ok(c) => out.push(format!(
+                "hub.qcfg {} {} {} {} {} {} {} {}",
+                c.owner,
+                c.update_reward_index_addr,
+                opt_str(&c.reward_dispatcher_contract),
+                opt_str(&c.validators_registry_contract),
+                opt_str(&c.bsei_token_contract),
+                opt_str(&c.stsei_token_contract),
+                opt_str(&c.airdrop_registry_contract),
+                opt_str(&c.token_contract),
+            )),
+            Err(_) => out.push("hub.qcfg err".to_string()),
+        }
+    });
     frag(w, key(K_HUB_NEWOWNER, 0, 0, 0), out, |out| {
         let st = StoreRef::new(w, HUB);
         match read_new_owner(&st) {
             Ok(n) => out.push(format!("hub.newowner {}", humanize(&n.new_owner_addr))),
             Err(_) => out.push("hub.newowner err".to_string()),
+        }
+    });
+    frag(w, key(K_HUB_QNEWOWNER, 0, 0, 0), out, |out| {
+        match query_contract::<_, NewOwnerResponse>(w, HUB, &QueryMsg::NewOwner {}) {
+            Ok(n) => out.push(format!("hub.qnewowner {}", word(&n.new_owner))),
+            Err(_) => out.push("hub.qnewowner err".to_string()),
         }
     });
     frag(w, key(K_HUB_PARAMS, 0, 0, 0), out, |out| {
@@ -228,6 +348,25 @@ fn dump_hub(w: &World, out: &mut Vec<String>) {
             Err(_) => out.push("hub.params err".to_string()),
         }
     });
+    frag(w, key(K_HUB_QPARAMS, 0, 0, 0), out, |out| {
+        match query_contract::<_, Parameters>(w, HUB, &QueryMsg::Parameters {}) {
+            Ok(p) => out.push(format!(
+                "hub.qparams {} {} {} {} {} {} {}",
+                p.epoch_period,
+                word(&p.underlying_coin_denom),
+                p.unbonding_period,
+                d(p.peg_recovery_fee),
+                d(p.er_threshold),
+                word(&p.reward_denom),
+                match p.paused {
+                    None => "-",
+                    Some(false) => "0",
+                    Some(true) => "1",
+                }
+            )),
+            Err(_) => out.push("hub.qparams err".to_string()),
+        }
+    });
     frag(w, key(K_HUB_STORED, 0, 0, 0), out, |out| {
         let st = StoreRef::new(w, HUB);
         match STATE.load(&st) {
@@ -246,20 +385,36 @@ fn dump_hub(w: &World, out: &mut Vec<String>) {
         }
     });
     frag(w, key(K_HUB_STATE, 0, 0, 0), out, |out| {
-        match query_contract::<_, StateResponse>(w, HUB, &QueryMsg::State {}) {
-            Ok(s) => out.push(format!(
-                "hub.state {} {} {} {} {} {} {} {}",
-                d(s.bsei_exchange_rate),
-                d(s.stsei_exchange_rate),
-                s.total_bond_bsei_amount,
-                s.total_bond_stsei_amount,
-                s.last_index_modification,
-                s.prev_hub_balance,
-                s.last_unbonded_time,
-                s.last_processed_batch
-            )),
-            Err(_) => out.push("hub.state err".to_string()),
-        }
+        // `hub.state` and `hub.qdep` (the deprecated alias fields `exchange_rate`,
+        // `total_bond_amount` of the same State response and `requested_with_fee` of the
+        // CurrentBatch response) share one State query: it consults bank and staking and is
+        // therefore recomputed for every dump
+        let (er, tb) = match query_contract::<_, StateResponse>(w, HUB, &QueryMsg::State {}) {
+            Ok(s) => {
+                out.push(format!(
+                    "hub.state {} {} {} {} {} {} {} {}",
+                    d(s.bsei_exchange_rate),
+                    d(s.stsei_exchange_rate),
+                    s.total_bond_bsei_amount,
+                    s.total_bond_stsei_amount,
+                    s.last_index_modification,
+                    s.prev_hub_balance,
+                    s.last_unbonded_time,
+                    s.last_processed_batch
+                ));
+                (d(s.exchange_rate).to_string(), s.total_bond_amount.to_string())
+            }
+            Err(_) => {
+                out.push("hub.state err".to_string());
+                ("err".to_string(), "err".to_string())
+            }
+        };
+        let rwf = match query_contract::<_, CurrentBatchResponse>(w, HUB, &QueryMsg::CurrentBatch {})
+        {
+            Ok(b) => b.requested_with_fee.to_string(),
+            Err(_) => "err".to_string(),
+        };
+        out.push(format!("hub.qdep {} {} {}", er, tb, rwf));
     });
     frag(w, key(K_HUB_BATCH, 0, 0, 0), out, |out| {
         if let Ok(b) = query_contract::<_, CurrentBatchResponse>(w, HUB, &QueryMsg::CurrentBatch {})
@@ -298,6 +453,70 @@ fn dump_hub(w: &World, out: &mut Vec<String>) {
                 break;
             }
             start_from = Some(page.history[n - 1].batch_id);
+        }
+    });
+    frag(w, key(K_HUB_QHIST, 0, 0, 0), out, |out| {
+        // AllHistory with the parameters `hub.hist` (limit 100, cursor only beyond 100 batches) does
+        // not exercise: small pages through the `start_from` cursor (the first HIST_PAGES pages),
+        // the default limit and the maximal limit; the paged lines print the deprecated alias
+        // fields amount / applied_exchange_rate / withdraw_rate of the response
+        let mut start_from: Option<u64> = None;
+        for k in 0..HIST_PAGES {
+            let lim = page_limit(k);
+            let page: AllHistoryResponse = match query_contract(
+                w,
+                HUB,
+                &QueryMsg::AllHistory { start_from, limit: Some(lim) },
+            ) {
+                Ok(p) => p,
+                Err(_) => {
+                    out.push(format!("hub.qhist err {}", k));
+                    break;
+                }
+            };
+            for h in &page.history {
+                out.push(format!(
+                    "hub.qhist {} {} {} {} {}",
+                    k,
+                    h.batch_id,
+                    h.amount,
+                    d(h.applied_exchange_rate),
+                    d(h.withdraw_rate)
+                ));
+            }
+            if (page.history.len() as u32) < lim {
+                break;
+            }
+            start_from = page.history.last().map(|h| h.batch_id);
+        }
+        match query_contract::<_, AllHistoryResponse>(
+            w,
+            HUB,
+            &QueryMsg::AllHistory { start_from: None, limit: None },
+        ) {
+            Ok(p) => {
+                let mut s = "hub.qhist.def".to_string();
+                for h in &p.history {
+                    let _ = write!(s, " {}", h.batch_id);
+                }
+                out.push(s);
+            }
+            Err(_) => out.push("hub.qhist.def err".to_string()),
+        }
+        match query_contract::<_, AllHistoryResponse>(
+            w,
+            HUB,
+            &QueryMsg::AllHistory { start_from: None, limit: Some(1000) },
+        ) {
+            Ok(p) => out.push(format!(
+                "hub.qhist.max {} {}",
+                p.history.len(),
+                match p.history.last() {
+                    Some(h) => h.batch_id.to_string(),
+                    None => "-".to_string(),
+                }
+            )),
+            Err(_) => out.push("hub.qhist.max err".to_string()),
         }
     });
     for (ai, a) in ADDRS.iter().enumerate() {
@@ -345,6 +564,8 @@ enum TokQ<'a> {
     Minter,
     Balance(&'a str),
     Allowance(&'a str, &'a str),
+    AllAccounts(Option<String>, Option<u32>),
+    AllAllowances(&'a str, Option<String>, Option<u32>),
 }
 
 fn tok_query<R: serde::de::DeserializeOwned>(w: &World, idx: usize, q: TokQ) -> Result<R, String> {
@@ -355,6 +576,10 @@ fn tok_query<R: serde::de::DeserializeOwned>(w: &World, idx: usize, q: TokQ) -> 
             TokQ::Minter => Q::Minter {},
             TokQ::Balance(a) => Q::Balance { address: a.to_string() },
             TokQ::Allowance(o, s) => Q::Allowance { owner: o.to_string(), spender: s.to_string() },
+            TokQ::AllAccounts(start_after, limit) => Q::AllAccounts { start_after, limit },
+            TokQ::AllAllowances(o, start_after, limit) => {
+                Q::AllAllowances { owner: o.to_string(), start_after, limit }
+            }
         };
         query_contract(w, idx, &m)
     } else {
@@ -364,6 +589,10 @@ fn tok_query<R: serde::de::DeserializeOwned>(w: &World, idx: usize, q: TokQ) -> 
             TokQ::Minter => Q::Minter {},
             TokQ::Balance(a) => Q::Balance { address: a.to_string() },
             TokQ::Allowance(o, s) => Q::Allowance { owner: o.to_string(), spender: s.to_string() },
+            TokQ::AllAccounts(start_after, limit) => Q::AllAccounts { start_after, limit },
+            TokQ::AllAllowances(o, start_after, limit) => {
+                Q::AllAllowances { owner: o.to_string(), start_after, limit }
+            }
         };
         query_contract(w, idx, &m)
     }
@@ -391,6 +620,18 @@ fn dump_token(w: &World, idx: usize, name: &str, out: &mut Vec<String>) {
         };
         out.push(format!("tok.{}.info {} {} {}", name, supply, minter, cap));
     });
+    frag(w, key(K_TOK_META, idx, 0, 0), out, |out| {
+        match tok_query::<TokenInfoResponse>(w, idx, TokQ::TokenInfo) {
+            Ok(t) => out.push(format!(
+                "tok.{}.meta {} {} {}",
+                name,
+                word(&t.name),
+                word(&t.symbol),
+                t.decimals
+            )),
+            Err(_) => out.push(format!("tok.{}.meta err", name)),
+        }
+    });
     for (ai, a) in ADDRS.iter().enumerate() {
         frag(w, key(K_TOK_BAL, idx, ai, 0), out, |out| {
             if let Ok(b) = tok_query::<BalanceResponse>(w, idx, TokQ::Balance(a)) {
@@ -400,6 +641,31 @@ fn dump_token(w: &World, idx: usize, name: &str, out: &mut Vec<String>) {
             }
         });
     }
+    frag(w, key(K_TOK_ACCOUNTS, idx, 0, 0), out, |out| {
+        // AllAccounts paged with the protocol's page sizes, then once with the default limit
+        let pre = format!("tok.{}.accounts", name);
+        let (items, end) = paged(
+            |start_after, limit| {
+                tok_query::<AllAccountsResponse>(w, idx, TokQ::AllAccounts(start_after, Some(limit)))
+                    .map(|r| r.accounts)
+            },
+            |a: &String| a.clone(),
+        );
+        for (k, a) in &items {
+            out.push(format!("{} {} {}", pre, k, word(a)));
+        }
+        page_end(&pre, end, out);
+        match tok_query::<AllAccountsResponse>(w, idx, TokQ::AllAccounts(None, None)) {
+            Ok(r) => {
+                let mut s = format!("{}.def", pre);
+                for a in &r.accounts {
+                    let _ = write!(s, " {}", word(a));
+                }
+                out.push(s);
+            }
+            Err(_) => out.push(format!("{}.def err", pre)),
+        }
+    });
     for (oi, o) in ADDRS.iter().enumerate() {
         for (si, s) in ADDRS.iter().enumerate() {
             frag(w, key(K_TOK_ALLOW, idx, oi, si), out, |out| {
@@ -419,6 +685,111 @@ fn dump_token(w: &World, idx: usize, name: &str, out: &mut Vec<String>) {
             });
         }
     }
+    for (oi, o) in ADDRS.iter().enumerate() {
+        frag(w, key(K_TOK_ALLALLOW, idx, oi, 0), out, |out| {
+            // AllAllowances of owner O, paged; then once with the default limit (nz)
+            let pre = format!("tok.{}.allallow {}", name, o);
+            let (items, end) = paged(
+                |start_after, limit| {
+                    tok_query::<AllAllowancesResponse>(
+                        w,
+                        idx,
+                        TokQ::AllAllowances(o, start_after, Some(limit)),
+                    )
+                    .map(|r| r.allowances)
+                },
+                |a: &cw20::AllowanceInfo| a.spender.clone(),
+            );
+            for (k, a) in &items {
+                out.push(format!(
+                    "{} {} {} {} {}",
+                    pre,
+                    k,
+                    word(&a.spender),
+                    a.allowance,
+                    exp_str(&a.expires)
+                ));
+            }
+            page_end(&pre, end, out);
+            match tok_query::<AllAllowancesResponse>(w, idx, TokQ::AllAllowances(o, None, None)) {
+                Ok(r) => {
+                    if !r.allowances.is_empty() {
+                        let mut s = format!("tok.{}.allallow.def {}", name, o);
+                        for a in &r.allowances {
+                            let _ = write!(s, " {}", word(&a.spender));
+                        }
+                        out.push(s);
+                    }
+                }
+                Err(_) => out.push(format!("tok.{}.allallow.def {} err", name, o)),
+            }
+        });
+    }
+    if idx == STSEI {
+        dump_stsei_extras(w, name, out);
+    }
+}
+
+/// The queries only cw20-base (stSei) has: AllSpenderAllowances, MarketingInfo, DownloadLogo.
+fn dump_stsei_extras(w: &World, name: &str, out: &mut Vec<String>) {
+    use cw20_base::msg::QueryMsg as Q;
+    let idx = STSEI;
+    for (si, sp) in ADDRS.iter().enumerate() {
+        frag(w, key(K_TOK_SPALLOW, idx, si, 0), out, |out| {
+            let pre = format!("tok.{}.spallow {}", name, sp);
+            let (items, end) = paged(
+                |start_after, limit| {
+                    query_contract::<_, AllSpenderAllowancesResponse>(
+                        w,
+                        idx,
+                        &Q::AllSpenderAllowances {
+                            spender: sp.to_string(),
+                            start_after,
+                            limit: Some(limit),
+                        },
+                    )
+                    .map(|r| r.allowances)
+                },
+                |a: &cw20::SpenderAllowanceInfo| a.owner.clone(),
+            );
+            for (k, a) in &items {
+                out.push(format!(
+                    "{} {} {} {} {}",
+                    pre,
+                    k,
+                    word(&a.owner),
+                    a.allowance,
+                    exp_str(&a.expires)
+                ));
+            }
+            page_end(&pre, end, out);
+        });
+    }
+    frag(w, key(K_TOK_MARKETING, idx, 0, 0), out, |out| {
+        match query_contract::<_, MarketingInfoResponse>(w, idx, &Q::MarketingInfo {}) {
+            Ok(m) => out.push(format!(
+                "tok.{}.marketing {} {} {} {}",
+                name,
+                opt_str(&m.project),
+                opt_str(&m.description),
+                match &m.logo {
+                    None => "-".to_string(),
+                    Some(LogoInfo::Embedded) => "embedded".to_string(),
+                    Some(LogoInfo::Url(u)) => format!("url:{}", word(u)),
+                },
+                match &m.marketing {
+                    None => "-".to_string(),
+                    Some(a) => word(a.as_str()),
+                }
+            )),
+            Err(_) => out.push(format!("tok.{}.marketing err", name)),
+        }
+        // DownloadLogo fails while no logo is stored (always: UploadLogo is not an operation)
+        match query_contract::<_, DownloadLogoResponse>(w, idx, &Q::DownloadLogo {}) {
+            Ok(l) => out.push(format!("tok.{}.logo {}:{}", name, word(&l.mime_type), l.data.len())),
+            Err(_) => out.push(format!("tok.{}.logo -", name)),
+        }
+    });
 }
 
 fn dump_reward(w: &World, out: &mut Vec<String>) {
@@ -448,11 +819,30 @@ fn dump_reward(w: &World, out: &mut Vec<String>) {
             Err(_) => out.push("rw.cfg err".to_string()),
         }
     });
+    frag(w, key(K_RW_QCFG, 0, 0, 0), out, |out| {
+        // the Config response has no swap_denoms
+        match query_contract::<_, ConfigResponse>(w, REWARD, &QueryMsg::Config {}) {
+            Ok(c) => out.push(format!(
+                "rw.qcfg {} {} {} {}",
+                word(&c.owner),
+                word(&c.hub_contract),
+                word(&c.reward_denom),
+                word(&c.swap_contract)
+            )),
+            Err(_) => out.push("rw.qcfg err".to_string()),
+        }
+    });
     frag(w, key(K_RW_NEWOWNER, 0, 0, 0), out, |out| {
         let st = StoreRef::new(w, REWARD);
         match read_new_owner(&st) {
             Ok(n) => out.push(format!("rw.newowner {}", humanize(&n.new_owner_addr))),
             Err(_) => out.push("rw.newowner err".to_string()),
+        }
+    });
+    frag(w, key(K_RW_QNEWOWNER, 0, 0, 0), out, |out| {
+        match query_contract::<_, NewOwnerResponse>(w, REWARD, &QueryMsg::NewOwner {}) {
+            Ok(n) => out.push(format!("rw.qnewowner {}", word(&n.new_owner))),
+            Err(_) => out.push("rw.qnewowner err".to_string()),
         }
     });
     frag(w, key(K_RW_STATE, 0, 0, 0), out, |out| {
@@ -465,6 +855,17 @@ fn dump_reward(w: &World, out: &mut Vec<String>) {
                 s.prev_reward_balance
             )),
             Err(_) => out.push("rw.state err".to_string()),
+        }
+    });
+    frag(w, key(K_RW_QSTATE, 0, 0, 0), out, |out| {
+        match query_contract::<_, StateResponse>(w, REWARD, &QueryMsg::State {}) {
+            Ok(s) => out.push(format!(
+                "rw.qstate {} {} {}",
+                d(s.global_index),
+                s.total_balance,
+                s.prev_reward_balance
+            )),
+            Err(_) => out.push("rw.qstate err".to_string()),
         }
     });
     for (ai, a) in ADDRS.iter().enumerate() {
@@ -487,6 +888,45 @@ fn dump_reward(w: &World, out: &mut Vec<String>) {
             }
         });
     }
+    frag(w, key(K_RW_QHOLDERS, 0, 0, 0), out, |out| {
+        // Holders paged with the protocol's page sizes, then once with the default limit
+        let (items, end) = paged(
+            |start_after, limit| {
+                query_contract::<_, HoldersResponse>(
+                    w,
+                    REWARD,
+                    &QueryMsg::Holders { start_after, limit: Some(limit) },
+                )
+                .map(|r| r.holders)
+            },
+            |h: &HolderResponse| h.address.clone(),
+        );
+        for (k, h) in &items {
+            out.push(format!(
+                "rw.qholders {} {} {} {} {}",
+                k,
+                word(&h.address),
+                h.balance,
+                d(h.index),
+                d(h.pending_rewards)
+            ));
+        }
+        page_end("rw.qholders", end, out);
+        match query_contract::<_, HoldersResponse>(
+            w,
+            REWARD,
+            &QueryMsg::Holders { start_after: None, limit: None },
+        ) {
+            Ok(r) => {
+                let mut s = "rw.qholders.def".to_string();
+                for h in &r.holders {
+                    let _ = write!(s, " {}", word(&h.address));
+                }
+                out.push(s);
+            }
+            Err(_) => out.push("rw.qholders.def err".to_string()),
+        }
+    });
     for (ai, a) in ADDRS.iter().enumerate() {
         frag(w, key(K_RW_ACCRUED, 0, ai, 0), out, |out| {
             if let Ok(r) = query_contract::<_, AccruedRewardsResponse>(
@@ -503,6 +943,8 @@ fn dump_reward(w: &World, out: &mut Vec<String>) {
 }
 
 fn dump_disp(w: &World, out: &mut Vec<String>) {
+    use basset::dispatcher::{ConfigResponse, NewOwnerResponse};
+    use basset_sei_rewards_dispatcher::msg::QueryMsg;
     use basset_sei_rewards_dispatcher::state::{read_config, read_new_owner};
     if !w.inst[DISP] {
         out.push("dp.none".to_string());
@@ -533,6 +975,30 @@ fn dump_disp(w: &World, out: &mut Vec<String>) {
             Err(_) => out.push("dp.cfg err".to_string()),
         }
     });
+    frag(w, key(K_DP_QCFG, 0, 0, 0), out, |out| {
+        match query_contract::<_, ConfigResponse>(w, DISP, &QueryMsg::Config {}) {
+            Ok(c) => {
+                let mut s = format!(
+                    "dp.qcfg {} {} {} {} {} {} {} {} {} {}",
+                    word(&c.owner),
+                    word(&c.hub_contract),
+                    word(&c.bsei_reward_contract),
+                    word(&c.stsei_reward_denom),
+                    word(&c.bsei_reward_denom),
+                    word(&c.krp_keeper_address),
+                    d(c.krp_keeper_rate),
+                    word(&c.swap_contract),
+                    word(&c.oracle_contract),
+                    c.swap_denoms.len()
+                );
+                for dn in &c.swap_denoms {
+                    let _ = write!(s, " {}", word(dn));
+                }
+                out.push(s);
+            }
+            Err(_) => out.push("dp.qcfg err".to_string()),
+        }
+    });
     frag(w, key(K_DP_NEWOWNER, 0, 0, 0), out, |out| {
         let st = StoreRef::new(w, DISP);
         match read_new_owner(&st) {
@@ -540,11 +1006,19 @@ fn dump_disp(w: &World, out: &mut Vec<String>) {
             Err(_) => out.push("dp.newowner err".to_string()),
         }
     });
+    frag(w, key(K_DP_QNEWOWNER, 0, 0, 0), out, |out| {
+        match query_contract::<_, NewOwnerResponse>(w, DISP, &QueryMsg::NewOwner {}) {
+            Ok(n) => out.push(format!("dp.qnewowner {}", word(&n.new_owner))),
+            Err(_) => out.push("dp.qnewowner err".to_string()),
+        }
+    });
 }
 
 fn dump_reg(w: &World, out: &mut Vec<String>) {
     use basset_sei_validators_registry::msg::QueryMsg;
-    use basset_sei_validators_registry::registry::{read_new_owner, ValidatorResponse, CONFIG};
+    use basset_sei_validators_registry::registry::{
+        read_new_owner, Config, NewOwnerResponse, ValidatorResponse, CONFIG,
+    };
     if !w.inst[REG] {
         out.push("rg.none".to_string());
         return;
@@ -558,11 +1032,26 @@ fn dump_reg(w: &World, out: &mut Vec<String>) {
             Err(_) => out.push("rg.cfg err".to_string()),
         }
     });
+    frag(w, key(K_RG_QCFG, 0, 0, 0), out, |out| {
+        // the Config query answers with the stored struct (canonical addresses)
+        match query_contract::<_, Config>(w, REG, &QueryMsg::Config {}) {
+            Ok(c) => {
+                out.push(format!("rg.qcfg {} {}", humanize(&c.owner), humanize(&c.hub_contract)))
+            }
+            Err(_) => out.push("rg.qcfg err".to_string()),
+        }
+    });
     frag(w, key(K_RG_NEWOWNER, 0, 0, 0), out, |out| {
         let st = StoreRef::new(w, REG);
         match read_new_owner(&st) {
             Ok(n) => out.push(format!("rg.newowner {}", humanize(&n.new_owner_addr))),
             Err(_) => out.push("rg.newowner err".to_string()),
+        }
+    });
+    frag(w, key(K_RG_QNEWOWNER, 0, 0, 0), out, |out| {
+        match query_contract::<_, NewOwnerResponse>(w, REG, &QueryMsg::NewOwner {}) {
+            Ok(n) => out.push(format!("rg.qnewowner {}", word(&n.new_owner))),
+            Err(_) => out.push("rg.qnewowner err".to_string()),
         }
     });
     frag(w, key(K_RG_VALS, 0, 0, 0), out, |out| {
